@@ -1,7 +1,7 @@
 """P2/P3/P4 instances of C07: bound None-pattern <-> polarity tables."""
 import ast
 
-from ..model import AnalysisError, dotted, norm_text, const_value, names_read
+from ..model import AnalysisError, expand_aug, dotted, norm_text, const_value, names_read
 from ..rules import guards
 
 B = 'kronecker_factored_lattice_lib'
@@ -25,6 +25,7 @@ def _is_halfrange(prog, fn, expr, stmts):
   """expr is (output_max - output_min) / 2 (possibly via a local)."""
   if isinstance(expr, ast.Name):
     for st in stmts:
+      st = expand_aug(st)
       if isinstance(st, ast.Assign) and dotted(st.targets[0]) == expr.id:
         return _is_halfrange(prog, fn, st.value, stmts)
     return False
@@ -40,6 +41,7 @@ def _is_halfrange(prog, fn, expr, stmts):
 def _scale_op(prog, fn, stmts):
   """classify what the executed statements do to `scale`."""
   kind = 'identity'
+  stmts = [expand_aug(s) for s in stmts]
   for st in stmts:
     if isinstance(st, ast.Assign) and dotted(st.targets[0]) == 'scale' and \
         isinstance(st.value, ast.Call):
@@ -188,6 +190,7 @@ def _scale_init(prog, fn, stmts):
   if dotted(v) == 'scale':
     scaled = False
     tiled = False
+    stmts = [expand_aug(s) for s in stmts]
     for st in stmts:
       if isinstance(st, ast.Assign) and dotted(st.targets[0]) == 'scale':
         if isinstance(st.value, ast.Call) and prog.ext_name(
@@ -215,6 +218,7 @@ def _halfrange_expr(e):
 
 def _weights_op(prog, fn, stmts):
   kind = 'identity'
+  stmts = [expand_aug(s) for s in stmts]
   for st in stmts:
     if isinstance(st, ast.Assign) and dotted(st.targets[0]) == 'weights':
       v = st.value
